@@ -51,6 +51,7 @@ type harnessSpec struct {
 	ExpectSat  bool // witness: at least one violation expected (vacuity guard)
 	NoMerge    bool
 	LazyAll    bool
+	NoEdwards  bool
 	BigMode    string
 	BigWidth   int
 	Reach      []string
@@ -388,6 +389,8 @@ func parseSpec(fn *ssa.Function, pkg *ssa.Package, rel string) (*harnessSpec, er
 			if len(f) > 2 {
 				sp.BigWidth, _ = strconv.Atoi(f[2])
 			}
+		case "noedwards":
+			sp.NoEdwards = true
 		case "lazy":
 			sp.LazyAll = true
 		case "nomerge":
@@ -479,6 +482,7 @@ func runItem(prog *ssa.Program, it item) (res *itemResult) {
 	ex.AllowPanic = it.H.AllowPanic
 	ex.NoMerge = it.H.NoMerge
 	ex.LazyAll = it.H.LazyAll
+	ex.NoEdwards = it.H.NoEdwards
 	ex.BigMode, ex.BigWidth = it.H.BigMode, it.H.BigWidth
 	for k, v := range it.H.Replace {
 		if !strings.Contains(k, ".") {
